@@ -2,6 +2,7 @@
    `c18 orig` runs the model of the code as found (before patches/C18-*). -/
 import TboxModel.Util
 import TboxModel.C18.Model
+import TboxModel.C18.SemWidth
 open Tbox.Util Tbox.C18
 
 def nPrims : Nat := 4
@@ -25,6 +26,8 @@ def parseSOp (w : String) (ndefs : Nat) : Option Op :=
   | ['y'] => some .yield
   | ['w'] => some .wait
   | ['e'] => some .exit
+  | ['t'] => some .throw
+  | ['K'] => some .rcleanup
   | 's' :: r => (two? (String.ofList r)).map fun p => .send p.1 p.2
   | 'r' :: r => (num? (String.ofList r) nPrims).map .recv
   | 'l' :: r => (num? (String.ofList r) nPrims).map .lock
@@ -56,12 +59,20 @@ def showOp : Op → String
   | .cadd k v => s!"ca{k}:{v}" | .cwait k => s!"cw{k}" | .cpost k v => s!"cp{k}:{v}"
   | .join t => s!"j{t}" | .cancel t => s!"x{t}"
   | .create d true => s!"n{d}" | .create d false => s!"N{d}"
+  | .throw => "t" | .rcleanup => "K"
 
 def showRes : Res → String
   | .ok => "ok" | .fail => "fail" | .val v => s!"v{v}"
 
 def showEv (e : Ev) : String :=
-  s!"P e r={e.r} {showOp e.op} {showRes e.res} c={if e.canc then 1 else 0}"
+  if e.r = mainR then s!"P e r=main {showOp e.op} {showRes e.res} c=0"
+  else s!"P e r={e.r} {showOp e.op} {showRes e.res} c={if e.canc then 1 else 0}"
+
+/-- calls that may be made from the main context through a `main <op>` line (create / cancel are the
+`new` / `cancel` lines; exit / throw are not calls) -/
+def mainCallable : Op → Bool
+  | .create _ _ | .cancel _ | .exit | .throw | .rcleanup => false
+  | _ => true
 
 def summary (s : State) : String :=
   let st := if s.n = 0 then "-" else
@@ -70,7 +81,9 @@ def summary (s : State) : String :=
       if !x.started then "u" else if x.state = .dead then "d" else toString x.done)
   let ch := String.join ((List.range nPrims).map fun c => if (s.ch c).queue.isEmpty then "1" else "0")
   let sm := String.join ((List.range nPrims).map fun k => if (s.sm k).count = 0 then "0" else "1")
-  s!"P st={st} ch={ch} sm={sm}" ++ (if s.stuck then " cleanup-did-not-terminate" else "")
+  -- `Channel::size()` returns `bool` (queue_.size() narrowed): true iff non-empty
+  let cz := String.join ((List.range nPrims).map fun c => if (s.ch c).queue.isEmpty then "0" else "1")
+  s!"P st={st} ch={ch} cz={cz} sm={sm}" ++ (if s.stuck then " cleanup-did-not-terminate" else "")
 
 def parseMain (s : State) (ws : List String) : Option MainOp :=
   match ws with
@@ -84,7 +97,35 @@ def parseMain (s : State) (ws : List String) : Option MainOp :=
   | ["cancel", r] => do pure (.cancel (← num? r s.n))
   | ["cleanup"] => some .cleanup
   | ["pass"] => some .pass
+  | ["main", w] => do
+      let op ← parseSOp w s.defs.length
+      if mainCallable op then pure (.call op) else none
+  -- stack size (KiB) of the routines created from now on: no effect on the model (harness only)
+  | ["stack", k] => do
+      let v ← num? k 1025
+      if v = 64 ∨ v = 128 ∨ v = 256 ∨ v = 1024 then pure .pass else none
   | _ => none
+
+/-- `semw <init> <a|v…>`: one private `Semaphore(sch, init)` used by one routine, at the C++ width
+(`TboxModel/C18/SemWidth.lean`, repaired arithmetic): g = granted, r = released, B = the acquire blocked (end);
+`nz` = `Semaphore::count()` (declared `bool`) after the run -/
+def int? (w : String) : Option Int :=
+  let cs := w.toList
+  let (neg, ds) := match cs with | '-' :: r => (true, r) | r => (false, r)
+  if ds.isEmpty ∨ ds.length > 10 ∨ !ds.all (fun c => '0' ≤ c ∧ c ≤ '9') ∨ (ds.length > 1 ∧ ds.head? = some '0') ∨ (neg ∧ ds = ['0']) then none
+  else
+    let v : Int := ds.foldl (fun a c => a * 10 + (c.toNat - 48)) (0 : Nat)
+    let x := if neg then -v else v
+    if SemW.INT_MIN ≤ x ∧ x ≤ SemW.INT_MAX then some x else none
+
+def semwLine (orig : Bool) (init : Int) (ops : List Char) : String :=
+  let rec go (s : SemW.St) (acc : String) : List Char → SemW.St × String
+    | [] => (s, acc)
+    | c :: cs =>
+        let s' := SemW.stepW (!orig) s (if c = 'a' then .acq else .rel)
+        if s'.blocked then (s', acc ++ "B") else go s' (acc ++ (if c = 'a' then "g" else "r")) cs
+  let (s, r) := go { count := init } "" ops
+  s!"P semw {r} nz={if s.count = 0 then 0 else 1}"
 
 /-- coarse state tags for the distribution statistics -/
 def stateTags (s : State) (op : MainOp) : List String :=
@@ -96,6 +137,8 @@ def stateTags (s : State) (op : MainOp) : List String :=
    | .cleanup => if live.any (fun r => (s.R r).started) then ["cleanup-started"] else ["cleanup"]
    | .cancel r => if (s.R r).state = .suspend ∧ (s.R r).inOp then ["cancel-blocked-main"] else ["cancel"]
    | .resume r => if (s.R r).state = .suspend ∧ (s.R r).inOp then ["spurious-resume"] else ["resume"]
+   | .call op => [if (mainCall s op).aborted then "main-abort" else
+                  if (mainCall s op).readyq.length > s.readyq.length then "main-wake" else "main-call"]
    | _ => []) ++
   (if s.stuck then ["STUCK"] else [])
 
@@ -105,12 +148,30 @@ def stepLine (orig : Bool) (s : State) (line : String) : State × List String :=
   | [] => (s, [])
   | "case" :: _ => ((if orig then initOrig else init), [line.trimAscii.toString])
   | _ =>
+    if s.aborted then (s, ["P aborted"]) else
+    let sw : Option String := match ws with
+      | ["semw", i, o] =>
+          if o.length = 0 ∨ o.length > 64 ∨ !o.toList.all (fun c => c = 'a' ∨ c = 'v') then none
+          else (int? i).map fun v => semwLine orig v o.toList
+      | _ => none
+    match sw with
+    | some l =>
+      let s0 := { s with tags := [] }
+      let s' := step s0 .pass
+      if s'.aborted then (s', ["B semw abort", l] ++ ((s'.log.take s'.abortAt).drop s.log.length).map showEv ++ ["P aborted"])
+      else (s', ["B semw", l] ++ (s'.log.drop s.log.length).map showEv ++ [summary s'])
+    | none =>
     match parseMain s ws with
     | none => (s, ["bad-op"])
     | some op =>
       let s0 := { s with tags := [] }
       let pre := stateTags s0 op
       let s' := step s0 op
+      if s'.aborted then
+        -- the process is gone: the trace ends where abort() was called
+        let evs := ((s'.log.take s'.abortAt).drop s.log.length).map showEv
+        (s', ["B " ++ " ".intercalate (pre ++ ["abort"])] ++ evs ++ ["P aborted"])
+      else
       let evs := (s'.log.drop s.log.length).map showEv
       (s', ["B " ++ " ".intercalate (pre ++ s'.tags ++ ["n" ++ toString (min s'.n 7)])] ++ evs ++ [summary s'])
 
